@@ -21,13 +21,13 @@ const (
 )
 
 type Val struct {
-	T      string     // SMT term
-	S      string     // SMT sort
-	Go     types.Type // Go type, may be nil for ghost values
-	Signed bool
-	Place  *Place
-	PlaceLost bool // a pointer whose symbolic place was lost in a merge: may not be dereferenced
-	Lit    *big.Int // set for untyped integer literals in contract expressions
+	T         string     // SMT term
+	S         string     // SMT sort
+	Go        types.Type // Go type, may be nil for ghost values
+	Signed    bool
+	Place     *Place
+	PlaceLost bool     // a pointer whose symbolic place was lost in a merge: may not be dereferenced
+	Lit       *big.Int // set for untyped integer literals in contract expressions
 }
 
 type Place struct {
